@@ -250,7 +250,17 @@ def _ground(case, rng, shape, base=None, fill=None):
         K = gen.mk_ktensor(ttb, w, fm)
         D = gen.sparsify(rng, gen.normals(rng, shape), "some")
         other = gen.mk_sptensor(ttb, D) if rng.integers(0, 2) else ttb.tensor(D.copy())
-        ST = ttb.sumtensor([K, other])
+        parts = [K, other]
+        # sums of three, five and six parts as well (any pairing or halving of the parts must add up all of them)
+        for _ in range(int(rng.choice([0, 0, 1, 3, 4]))):
+            kind_ = int(rng.integers(0, 3))
+            Dx = gen.sparsify(rng, gen.normals(rng, shape), "some")
+            if kind_ == 2:
+                wx, fx = gen.rand_ktensor_parts(rng, shape, 1)
+                parts.append(gen.mk_ktensor(ttb, wx, fx))
+            else:
+                parts.append(gen.mk_sptensor(ttb, Dx) if kind_ else ttb.tensor(Dx.copy()))
+        ST = ttb.sumtensor(parts)
         A = denote(ST)
         H["sumtensor"] = ST
     else:
